@@ -207,8 +207,9 @@ def stage_wide(chk, focus, tag='w'):
     >= 8, several variables quantified / substituted / renamed at once, names
     whose alphabetical order is not their level order (drivers/wide.py)."""
     q = chk.quick
-    return stage_histories(chk, ntraces=32 if q else 480, steps=18 if q else 30,
-                           nvars_choices=[9, 9, 10, 11] if q else [9, 10, 11, 12],
+    # TLC evaluates every denotation over all 2^n assignments: n = 12 costs 8 times n = 9
+    return stage_histories(chk, ntraces=32 if q else 192, steps=18 if q else 24,
+                           nvars_choices=[9, 9, 10, 11] if q else [9, 9, 10, 10, 11],
                            profile='wide_' + focus, tag=tag + focus)
 
 
